@@ -20,6 +20,7 @@ import (
 	cckeeper "github.com/functionx/fx-core/v8/x/crosschain/keeper"
 	cctypes "github.com/functionx/fx-core/v8/x/crosschain/types"
 	erc20types "github.com/functionx/fx-core/v8/x/erc20/types"
+	fxgovtypes "github.com/functionx/fx-core/v8/x/gov/types"
 )
 
 // ---------------------------------------------------------------------------------------
@@ -62,6 +63,7 @@ type BridgeSt struct {
 	NUsers int
 	// generator memory
 	Proposed map[string]bool
+	Evm      *EvmSt // extension state of the EVM engine
 }
 
 type BridgeEngine struct{}
@@ -923,6 +925,12 @@ func (e BridgeEngine) applyGov(r *Run, s *Step, o *Outcome) {
 		msgs = append(msgs, &cctypes.MsgUpdateParams{ChainName: c.Name, Authority: auth, Params: p})
 	case "toggle":
 		msgs = append(msgs, &erc20types.MsgToggleTokenConversion{Authority: auth, Token: s.A.Str("token")})
+	case "switch":
+		var list []string
+		if s.A.Str("list") != "" {
+			list = strings.Split(s.A.Str("list"), ",")
+		}
+		msgs = append(msgs, &fxgovtypes.MsgUpdateSwitchParams{Authority: auth, Params: fxgovtypes.SwitchParams{DisablePrecompiles: list}})
 	default:
 		o.Note = "unknown proposal"
 		return
